@@ -520,7 +520,41 @@ def late_values(rng, a):
     return b
 
 
+def nan_coded_equality(rep):
+    """Irregular data in the NaN-on-common-grid encoding: a dataset that has an observed sample where the other one has a missing
+    one (all common samples equal) is a different dataset — from whichever side the comparison is made; and `in` / remove() on a
+    multivariate object follow."""
+    from FDApy.representation.functional_data import IrregularFunctionalData, MultivariateFunctionalData
+    from FDApy.representation.argvals import DenseArgvals, IrregularArgvals
+    from FDApy.representation.values import IrregularValues
+    rng = np.random.default_rng([C.seed(), 12, 5])
+    t = np.arange(6) / 4.0
+    full = np.round(rng.normal(size=(3, 6)) * 16) / 16
+
+    def build(V):
+        return IrregularFunctionalData(IrregularArgvals({k: DenseArgvals({"input_dim_0": t.copy()}) for k in range(3)}),
+                                       IrregularValues({k: V[k].copy() for k in range(3)}))
+    holes = full.copy()
+    holes[0, 2] = np.nan
+    holes[2, 4] = np.nan
+    a, b = build(holes), build(full)
+    other = build(full + 1.0)
+    res = {}
+    for lab, f in (("a == b", lambda: a == b), ("b == a", lambda: b == a), ("b in [other, a]", lambda: b in MultivariateFunctionalData([other, a])),
+                   ("a in [other, b]", lambda: a in MultivariateFunctionalData([other, b]))):
+        try:
+            res[lab] = f()
+        except Exception as e:  # noqa: BLE001
+            res[lab] = f"raised {type(e).__name__}"
+    rep.case(("nan-coded-equality", full.tobytes()), kind="equality/nan-coded")
+    bad = [f"{lab} gives {v!r}" for lab, v in res.items() if v is not False and not (isinstance(v, np.bool_) and not v)]
+    if bad:
+        rep.violation("equality of NaN-coded irregular data that differ in an observed-versus-missing sample must be False from both "
+                      "sides: " + "; ".join(bad), {"t": t.tolist(), "full": full.tolist(), "missing_in_a": [[0, 2], [2, 4]]})
+
+
 def equality(rep, col, rng, quick):
+    nan_coded_equality(rep)
     run = C.CoqRun("C12", IMPORTS, shard=48)
     todo = []
     pairs = []
